@@ -552,6 +552,83 @@ def gen_backlog_scenario(rng):
     return {"router": router, "queue": rng.choice(["d", "d", "p"]), "n": n, "disc": "none", "hash": {}, "rl": rl, "ops": ops[:90]}
 
 
+def gen_cursor_scenario(rng):
+    """worker-queueing routers across a shrink: k jobs are routed (the round-robin cursor ends anywhere in the old
+    pool, in particular at or beyond the new size), everything completes, the pool shrinks, further jobs arrive and a
+    settled-point query follows: they must run on the workers that are left, not wait in the factory queue."""
+    router = rng.choice(["rr", "rr", "rr", "kp", "cu"])
+    n = rng.choice([2, 3, 3, 4, 5])
+    keys = rng.sample(range(0, 40), rng.choice([2, 3, 6]))
+    h = {k: rng.choice([0, 1, 2, 3, 5, 7, 2**32 + 3]) for k in keys} if router == "cu" else {}
+    ops, jid = [], 0
+    def d():
+        nonlocal jid
+        jid += 1
+        ops.append(["d", jid, rng.choice(keys), "-", rng.choice([0, 1])])
+    for _ in range(rng.randrange(1, 2 * n + 1)):
+        d()
+    for _ in range(rng.choice([2, 3])):
+        for w in range(n):
+            ops.append(["g", w])
+    m = rng.randrange(1, n)
+    ops.append([rng.choice(["r", "r", "sw"]), m])
+    for _ in range(rng.choice([1, 2, m + 1])):
+        d()
+    ops.append(["q"])
+    for _ in range(rng.choice([1, 2])):
+        for w in range(n):
+            ops.append(["g", w])
+        if rng.random() < 0.5:
+            d()
+            ops.append(["q"])
+    if rng.random() < 0.3:
+        ops.append(["r", rng.choice([n, n + 1])])
+        d()
+        d()
+        ops.append(["q"])
+    for _ in range(3):
+        for w in range(n + 1):
+            ops.append(["g", w])
+    ops.append(["q"])
+    return {"router": router, "queue": rng.choice(["d", "d", "p"]), "n": n, "disc": "none", "hash": h, "rl": "", "ops": ops[:80]}
+
+
+def gen_shed_update_scenario(rng):
+    """discard settings changed at runtime under a factory-queueing router: a worker is busy with key k, the limit is
+    set (UpdateSettings), then more than limit + 1 jobs of key k arrive (sticky: they are parked at that worker, whose
+    private queue has no limit) next to jobs of other keys; load shedding may only hit the factory queue."""
+    router = rng.choice(["sq", "sq", "sq", "q"])
+    n = rng.choice([1, 2, 2, 3])
+    limit = rng.choice([0, 1, 1, 2])
+    k0, k1, k2 = rng.sample(range(0, 40), 3)
+    ops, jid = [], 0
+    def d(k):
+        nonlocal jid
+        jid += 1
+        ops.append(["d", jid, k, "-", rng.choice([0, 1, 1])])
+    d(k0)
+    if rng.random() < 0.4:
+        d(k1)
+    ops.append(["sd", rng.choice(["new", "old"]) + ":" + str(limit)])
+    for _ in range(limit + rng.choice([2, 3])):
+        d(k0 if rng.random() < 0.85 else k2)
+    ops.append(["q"])
+    for _ in range(rng.choice([2, 4])):
+        x = rng.random()
+        if x < 0.5:
+            ops.append(["g", rng.randrange(0, n)])
+        elif x < 0.8:
+            d(rng.choice([k0, k0, k1, k2]))
+        else:
+            ops.append(["sd", rng.choice(["none", "new:1", "old:1", "new:0"])])
+    for _ in range(6):
+        for w in range(n):
+            ops.append(["g", w])
+    ops.append(["q"])
+    return {"router": router, "queue": rng.choice(["d", "d", "p"]), "n": n, "disc": rng.choice(["none", "none", "new:3"]),
+            "hash": {}, "rl": "", "ops": ops[:80]}
+
+
 def gen_long_scenario(rng):
     """long-running factories: the clock passes the 10 s ping period several times (DoPings -> FactoryPing ->
     WorkerPong), a dead man's switch in detection-only mode watches the workers, and UpdateSettings replaces the
